@@ -157,7 +157,7 @@ func (m *Machine) visitInstr(fr *frame, instr ssa.Instruction) continuation {
 		fr.env[instr] = fr.get(instr.Tuple).(tuple)[instr.Index]
 
 	case *ssa.Slice:
-		fr.env[instr] = m.slice(fr.get(instr.X), fr.get(instr.Low), fr.get(instr.High), fr.get(instr.Max))
+		fr.env[instr] = m.slice(m.resolveTok(fr.get(instr.X)), fr.get(instr.Low), fr.get(instr.High), fr.get(instr.Max))
 
 	case *ssa.Return:
 		switch len(instr.Results) {
@@ -236,6 +236,13 @@ func (m *Machine) visitInstr(fr *frame, instr ssa.Instruction) continuation {
 			m.seg.spawned = append(m.seg.spawned, spawnReq{fn: fn, args: args})
 			break
 		}
+		if m.tsSetup != nil {
+			// a goroutine started while the scenario is being set up (e.g. by
+			// the real Start()) becomes an initial thread of the scenario
+			f, a := fn, args
+			m.tsSetup.threads = append(m.tsSetup.threads, tsThreadDecl{name: "go:" + shortFn(describeFn(fn)), fn: &hostThread{fn: f, args: a}})
+			break
+		}
 		m.spawn(fn, args, instr.Pos())
 
 	case *ssa.MakeChan:
@@ -281,7 +288,7 @@ func (m *Machine) visitInstr(fr *frame, instr ssa.Instruction) continuation {
 		fr.env[instr] = newOmap(instr.Type().Underlying().(*types.Map).Key())
 
 	case *ssa.Range:
-		fr.env[instr] = m.rangeIter(fr.get(instr.X))
+		fr.env[instr] = m.rangeIter(m.resolveTok(fr.get(instr.X)))
 
 	case *ssa.Next:
 		fr.env[instr] = fr.get(instr.Iter).(iter).next(m)
@@ -297,7 +304,10 @@ func (m *Machine) visitInstr(fr *frame, instr ssa.Instruction) continuation {
 		fr.env[instr] = copyVal(fr.get(instr.X).(structure)[instr.Field])
 
 	case *ssa.IndexAddr:
-		x := fr.get(instr.X)
+		x := m.resolveTok(fr.get(instr.X))
+		if _, isIface := x.(iface); isIface {
+			panic(pathEnd{"infeasible", "token of the wrong shape for a slice"})
+		}
 		idx := fr.get(instr.Index)
 		switch x := x.(type) {
 		case []value:
@@ -337,7 +347,7 @@ func (m *Machine) visitInstr(fr *frame, instr ssa.Instruction) continuation {
 		m.omapSet(mm, fr.get(instr.Key), copyVal(fr.get(instr.Value)))
 
 	case *ssa.TypeAssert:
-		fr.env[instr] = m.typeAssert(instr, m.resolveTok(fr.get(instr.X)).(iface))
+		fr.env[instr] = m.typeAssert(instr, m.resolveIface(fr.get(instr.X)))
 
 	case *ssa.MakeClosure:
 		var bindings []value
@@ -433,7 +443,10 @@ func (m *Machine) prepareCall(fr *frame, call *ssa.CallCommon) (fn value, args [
 	if call.Method == nil {
 		fn = v
 	} else {
-		recv := v.(iface)
+		recv, isIface := v.(iface)
+		if !isIface {
+			panic(pathEnd{"infeasible", "token of the wrong shape for an interface"})
+		}
 		if recv.t == nil {
 			m.rtPanic("invalid memory address or nil pointer dereference (method " + call.Method.Name() + " on nil interface)")
 		}
